@@ -18,7 +18,7 @@ import (
 )
 
 func TestMain(m *testing.M) {
-	zerolog.SetGlobalLevel(zerolog.Disabled)
+	zerolog.SetGlobalLevel(zerolog.FatalLevel) // a fatal log call exits the process: its message must be visible
 	vt.Main(m, "C11")
 }
 
